@@ -74,6 +74,18 @@ def run(ctx):
             for _ in range(rng.randrange(1, 4)):
                 m = gens.mutate(rng, m)
             texts.append(m)
+    # valid texts of the FULL grammar: random trees (calls, lists and lambdas inside in-lists and arguments, named parameters, every literal kind)
+    # rendered by the independent reference printer, then mutated
+    import gens_ast
+    from sexpr import enc, unhex
+    g = gens_ast.AstGen(rng)
+    trees = [g.gen(rng.randint(1, 5)) for _ in range(3000 if ctx.thorough else 500)]
+    texts += ["name in (tolower(first_name), 'bob')", "year(created_at) in (year(now()), 2020)", "total in (length(name) add 1, 10)",
+              "pair in ((1, 2), (3, 4))", "name in (concat(a, b),)", "x in (a/b, c/any(t: t eq 1), -y, not z)", "f.g(p=(1, (2, 3)), q=h.i(j=1))"]
+    rendered = [unhex(o) for o in driver.run_batch([driver.req("refprint", "min", "000000", enc(t)) for t in trees]) if o not in ("not-expr", "bad-arg")]
+    texts += rendered
+    for f in rendered[:: (1 if ctx.thorough else 4)]:
+        texts.append(gens.mutate(rng, f))
     # keywords respelled with Unicode case twins (ſ ı İ K): re.I still matches them, the actions see a non-ASCII spelling
     for f in list(gens.VALID_FILTERS) + gens.KEYWORD_FILTERS:
         texts += gens.unicode_case_variants(f)
